@@ -353,15 +353,55 @@ func scenC15(r *Run) {
 				}
 				// errors and panics of the function travel back through every handler like results do
 				t.outcome = []byte{0, 0, 0, 'E', 'P'}[r.Plan(5)]
+				if !onService && r.Plan(6) == 0 {
+					t.outcome = 'C' // the caller's context is already cancelled: the call still passes through every handler
+				}
 				c15cur = t
 				ctx := context.Background()
 				if !onService {
 					ctx = context.WithValue(ctx, c15key{}, t)
 				}
+				if t.outcome == 'C' {
+					var cancel context.CancelFunc
+					ctx, cancel = context.WithCancel(ctx)
+					cancel()
+				}
 				sim.Event("call", nonce, "short="+t.short, "outcome="+string(append([]byte{'-'}, t.outcome)))
 				res, err := client.InvokeContext(ctx, "f", []interface{}{nonce})
 				c15cur = nil
-				if t.outcome != 0 && t.short == "" && (err == nil || !strings.Contains(err.Error(), fmt.Sprintf("core %s %d", map[byte]string{'E': "error", 'P': "panic"}[t.outcome], nonce))) {
+				if t.outcome == 'C' {
+					// whether the transport still carries a cancelled call is its business: with or without the
+					// function's mark, every installed handler was passed, in order, there and back
+					// (the function's own mark may also come late: the transport lets go of a cancelled call while
+					// the service is still at it)
+					var g, o []string
+					for _, m := range c15chainP(invL, ioL, t.short, false) {
+						if m != "core" {
+							g = append(g, m)
+						}
+					}
+					for _, m := range t.marks {
+						if m != "core" {
+							o = append(o, m)
+						}
+					}
+					if strings.Join(o, " ") != strings.Join(g, " ") {
+						ai, ao := aliasM.lists()
+						var ga []string
+						for _, m := range c15chainP(ai, ao, t.short, false) {
+							if m != "core" {
+								ga = append(ga, m)
+							}
+						}
+						if strings.Join(o, " ") == strings.Join(ga, " ") {
+							r.Fail("C15:chain-mismatch:unuse-removed-aliased-handler:"+mode, "call %d (cancelled context): installed invoke handlers %v, IO handlers %v\n observed %v", nonce, invL, ioL, t.marks)
+							return
+						}
+						r.Fail("C15:chain-mismatch:cancelled-call:"+mode, "call %d with an already cancelled context: installed invoke handlers %v, IO handlers %v, short-circuit at %q\n expected (function's mark aside) %v\n observed %v (err %v)", nonce, invL, ioL, t.short, g, t.marks, err)
+						return
+					}
+					continue
+				} else if t.outcome != 0 && t.short == "" && (err == nil || !strings.Contains(err.Error(), fmt.Sprintf("core %s %d", map[byte]string{'E': "error", 'P': "panic"}[t.outcome], nonce))) {
 					r.Fail("C15:error-path:"+mode, "call %d: the function %s, the caller got result %v err %v", nonce, map[byte]string{'E': "returned an error", 'P': "panicked"}[t.outcome], res, err)
 					return
 				}
